@@ -22,11 +22,12 @@ import (
 func init() { register("C05", "exploration", c05) }
 
 func c05(run *ev.Run) int {
-	run.SetRule("(i) connect-go -> reference: random handler programs (headers, trailers, k messages of assorted sizes, nil or an error with any code / text class / details / metadata incl. forwarded Grpc-* keys) and the client's requests x 3 protocols x 2 codecs x 4 kinds x compression modes, every request and response decoded by the independent reference codec with structural assertions (200 + exactly one grpc-status in the right place, exactly one final end-of-stream envelope, JSON error under the code's status, Content-Type echoed, compressed flag only with a named algorithm, grammatical timeout, te: trailers) and value assertions (messages, status, error, metadata); (ii) reference -> connect-go: conformant responses and requests produced by the reference encoder with legal variation (in-body key casing, padded/unpadded base64, hex case in percent-encoding, per-message compression, optional fields absent, bare application/grpc, every timeout unit) must be accepted and decoded to the same values; (iii) optional: grpc-go v1.38 as a live third-party peer; distinct by (direction, protocol, codec, kind, compression, outcome class, variation); also: metadata of responses that could not be marshalled; peer messages whose only escape is in the last three bytes")
+	run.SetRule("(i) connect-go -> reference: random handler programs (headers, trailers, k messages of assorted sizes, nil or an error with any code / text class / details / metadata incl. forwarded Grpc-* keys) and the client's requests x 3 protocols x 2 codecs x 4 kinds x compression modes, every request and response decoded by the independent reference codec with structural assertions (200 + exactly one grpc-status in the right place, exactly one final end-of-stream envelope, JSON error under the code's status, Content-Type echoed, compressed flag only with a named algorithm, grammatical timeout, te: trailers) and value assertions (messages, status, error, metadata); (ii) reference -> connect-go: conformant responses and requests produced by the reference encoder with legal variation (in-body key casing, padded/unpadded base64, hex case in percent-encoding, per-message compression, optional fields absent, bare application/grpc, every timeout unit) must be accepted and decoded to the same values; (iii) optional: grpc-go v1.38 as a live third-party peer; distinct by (direction, protocol, codec, kind, compression, outcome class, variation); also: metadata of responses that could not be marshalled; peer messages whose only escape is in the last three bytes; responses written after a registered compressor refused the message (Close fails) must still be well-formed")
 	run.Assume("the reference codec is this harness author's reading of the Connect, gRPC and gRPC-Web specifications; grpc-go covers gRPC only")
 	c05Outbound(run)
 	c05InboundResponses(run)
 	c05InboundRequests(run)
+	failingCompressor(run, "c05", true)
 	mergeInterop(run)
 	return run.Finish("outbound.responses.decoded", "outbound.requests.decoded", "inbound.responses.accepted", "inbound.requests.accepted")
 }
